@@ -103,26 +103,59 @@ def check(run, ctx):
     }
     for fn, need in uses.items():
         f = repo.func(f"{ORCH}.{fn}")
-        have = {n.id for n in ast.walk(f.node) if isinstance(n, ast.Name)} | {n.value for n in ast.walk(f.node) if isinstance(n, ast.Constant) and isinstance(n.value, str)}
+        flat = list(inline.flat_nodes(repo, f))   # the test may live in a shared private predicate
+        have = {n.id for n in flat if isinstance(n, ast.Name)} | {n.value for n in flat if isinstance(n, ast.Constant) and isinstance(n.value, str)}
         for x in sorted(need):
             if x in have:
                 run.ok(W2, f"{fn} uses {x}")
             else:
                 run.finding(W2, fn, f"no-use:{x}", f"{fn} no longer consults {x}", f.loc)
-    # membership polarity: `part in DIRS -> return True` ; include_dir: `not in`
+
+    def polarity(owner, e) -> int:
+        """+1: e is true exactly when the name is an excluded directory name (in the table or *.egg-info); -1: its negation; 0: unknown"""
+        if isinstance(e, ast.Compare) and len(e.ops) == 1 and isinstance(e.comparators[0], ast.Name) and e.comparators[0].id == "_HARDCODED_EXCLUDE_DIRS":
+            return 1 if isinstance(e.ops[0], ast.In) else -1 if isinstance(e.ops[0], ast.NotIn) else 0
+        if isinstance(e, ast.Call) and call_name(e) == "endswith" and e.args and isinstance(e.args[0], ast.Constant) and e.args[0].value == ".egg-info":
+            return 1
+        if isinstance(e, ast.UnaryOp) and isinstance(e.op, ast.Not):
+            return -polarity(owner, e.operand)
+        if isinstance(e, ast.BoolOp):
+            ps = [polarity(owner, v) for v in e.values]
+            if isinstance(e.op, ast.Or) and all(x == 1 for x in ps):
+                return 1
+            if isinstance(e.op, ast.And) and all(x == -1 for x in ps):
+                return -1
+            return 0
+        if isinstance(e, ast.Call) and call_name(e) == "any" and e.args and isinstance(e.args[0], (ast.GeneratorExp, ast.ListComp)):
+            return polarity(owner, e.args[0].elt)
+        if isinstance(e, ast.Call):
+            g = inline.resolve_call(repo, owner, e)
+            if g is not None:
+                rets = [r.value for r in ast.walk(g.node) if isinstance(r, ast.Return) and r.value is not None]
+                if len(rets) == 1:
+                    return polarity(g, rets[0])
+        return 0
+
     f = repo.func(f"{ORCH}._should_include_dir")
-    ok = any(isinstance(n, ast.Compare) and isinstance(n.ops[0], ast.NotIn) and isinstance(n.comparators[0], ast.Name) and n.comparators[0].id == "_HARDCODED_EXCLUDE_DIRS" for n in ast.walk(f.node))
-    (run.ok(W2, "_should_include_dir polarity", "dirname not in table") if ok else run.finding(W2, "_should_include_dir", "polarity", "pruning predicate is not `dirname not in _HARDCODED_EXCLUDE_DIRS`", f.loc))
+    rets = [r.value for r in ast.walk(f.node) if isinstance(r, ast.Return) and r.value is not None]
+    ok = len(rets) == 1 and polarity(f, rets[0]) == -1
+    (run.ok(W2, "_should_include_dir polarity", "a directory is kept iff its name is neither in the table nor *.egg-info") if ok else run.finding(W2, "_should_include_dir", "polarity", "the pruning predicate is not the negation of `dirname in _HARDCODED_EXCLUDE_DIRS or dirname.endswith('.egg-info')`", f.loc))
     f = repo.func(f"{ORCH}._is_hardcoded_excluded")
-    # the parts loop iterates path.parts and returns True on membership
+    # every path component is tested against the table, and a hit excludes the file (loop with early return, or any(...))
     loop_ok = False
     for n in ast.walk(f.node):
         if isinstance(n, ast.For) and contains(n.iter, lambda x: isinstance(x, ast.Attribute) and x.attr in ("parts", "parents")):
-            tests = [t for t in ast.walk(n) if isinstance(t, ast.If)]
-            for t in tests:
-                if contains(t.test, lambda x: isinstance(x, ast.Compare) and isinstance(x.ops[0], ast.In) and isinstance(x.comparators[0], ast.Name) and x.comparators[0].id == "_HARDCODED_EXCLUDE_DIRS"):
-                    if any(isinstance(s, ast.Return) and isinstance(s.value, ast.Constant) and s.value.value is True for s in t.body):
-                        loop_ok = True
+            for t in [t for t in ast.walk(n) if isinstance(t, ast.If)]:
+                pos = polarity(f, t.test) == 1 or contains(t.test, lambda x: isinstance(x, ast.Compare) and isinstance(x.ops[0], ast.In) and isinstance(x.comparators[0], ast.Name) and x.comparators[0].id == "_HARDCODED_EXCLUDE_DIRS")
+                if pos and any(isinstance(s_, ast.Return) and isinstance(s_.value, ast.Constant) and s_.value.value is True for s_ in t.body):
+                    loop_ok = True
+        if isinstance(n, ast.Return) and n.value is not None:
+            for c in ast.walk(n.value):
+                if isinstance(c, ast.Call) and call_name(c) == "any" and c.args and isinstance(c.args[0], (ast.GeneratorExp, ast.ListComp)):
+                    gen = c.args[0]
+                    if not gen.generators[0].ifs and contains(gen.generators[0].iter, lambda x: isinstance(x, ast.Attribute) and x.attr in ("parts", "parents")) and polarity(f, gen.elt) == 1:
+                        # `return any(...)` or `return <ext test> or any(...)`: a hit makes the result True
+                        loop_ok = loop_ok or n.value is c or (isinstance(n.value, ast.BoolOp) and isinstance(n.value.op, ast.Or))
     (run.ok(W2, "_is_hardcoded_excluded parts loop", "every path component tested against the table") if loop_ok else run.finding(W2, "_is_hardcoded_excluded", "parts-loop", "no loop over path components returning True on table membership", f.loc))
 
     W3 = run.rule("W3", "_collect_files_fast: os.walk top-down without followlinks, dirs[:] pruned in place by _should_include_dir, files collected before the non-recursive break, break guarded by `not recursive`", floor=5,
@@ -202,13 +235,13 @@ def check(run, ctx):
                 loop_ok = True
     (run.ok(W4, "lint_directory loop", "iterates the collected list and calls lint_file on each") if loop_ok else run.finding(W4, "lint_directory", "loop", "collected files are not each passed to lint_file", f.loc))
     f = repo.func("src.linter_config.ignore.IgnoreDirectiveParser.is_ignored")
-    rel = [c for c in ast.walk(f.node) if is_call_named(c, "relative_to")]
+    rel = [c for c in inline.flat_nodes(repo, f) if is_call_named(c, "relative_to") and c.args]   # helper bodies inlined, parameters substituted by the call's arguments
     if rel and isinstance(rel[0].args[0], ast.Attribute) and rel[0].args[0].attr == "project_root":
         run.ok(W4, "is_ignored relative_to(project_root)")
     else:
         run.finding(W4, "IgnoreDirectiveParser.is_ignored", "relativise", "path is not relativised against project_root before pattern matching", f.loc)
-    mp = [c for c in ast.walk(f.node) if is_call_named(c, "matches_pattern")]
-    if mp and isinstance(mp[0].args[0], ast.Name) and any(isinstance(g, ast.comprehension) and ast.unparse(g.iter) == "self.repo_patterns" for n in ast.walk(f.node) if isinstance(n, (ast.GeneratorExp, ast.ListComp)) for g in n.generators):
+    mp = [c for c in inline.flat_nodes(repo, f) if is_call_named(c, "matches_pattern")]
+    if mp and isinstance(mp[0].args[0], ast.Name) and any(isinstance(g, ast.comprehension) and ast.unparse(g.iter) == "self.repo_patterns" for n in inline.flat_nodes(repo, f) if isinstance(n, (ast.GeneratorExp, ast.ListComp)) for g in n.generators):
         run.ok(W4, "is_ignored any(matches_pattern over repo_patterns)")
     else:
         run.finding(W4, "IgnoreDirectiveParser.is_ignored", "pattern-loop", "does not test every repository pattern with matches_pattern", f.loc)
